@@ -341,3 +341,18 @@ def dominated_by(fn, pos, pred):
     tb, ti = pos
     hit = search(fn, [], stop=pred, target=lambda n, _t=fn.blocks[tb]['elems'][ti]: n['id'] == _t, include_entry=True)
     return hit is None
+
+
+def enclosing_assumptions(fn, node):
+    """[(condition node, truth)] of the if statements whose branch contains `node` (innermost first): facts that hold
+    when control is at `node`, provided their operands were not written since (the zone domain forgets written variables
+    only along the searched path, so callers use this for conditions over variables not written between the test and node)."""
+    out = []
+    nid = node['id'] if isinstance(node, dict) else node
+    for a in fn.ancestors(nid):
+        if a['k'] == 'IfStmt':
+            if fn.within(nid, a['then']):
+                out.append((fn.nodes[a['cond']], True))
+            elif a.get('else', -1) >= 0 and fn.within(nid, a['else']):
+                out.append((fn.nodes[a['cond']], False))
+    return out
